@@ -11,7 +11,10 @@ level("C09",
             "side is used or its storage reused), values_analysed, interpreters_agree, wellformed_not_rejected. clone_pinned_counterexample (kernel-evaluated): the pinned Clone "
             "(alloc without analyze) reports a won game as not over and has its BlackGroups changed by reuse of the source's storage - the defect fixed in fbe43a9. "
             "Sampled (every run): the heap model AND the pure model agree with the real tak package on random op sequences with aggressive buffer reuse, all live handles dumped "
-            "(position, groups, verdict, hash, move count) after every op; the driver executes the very functions the theorem is about (HState.step / PState.step)."),
+            "(position, groups, verdict, hash, move count) after every op; the driver executes the very functions the theorem is about (HState.step / PState.step). "
+            "Also compared per live handle: the slice HEADERS of the real object (WhiteGroups in the object's own array or an appended one, len, cap, offset/cap of BlackGroups behind it, "
+            "Height/Stacks inside the object) with the model's headers, as far as append's growth policy does not enter; and on real addresses that the storage windows of distinct "
+            "objects are pairwise disjoint (always 'yes' in the model by the theorem; 'no' thousands of times on the pre-fix tree). Domino boards make append reallocate."),
       note=("The heap model of slices (arrays in a store, headers (arr, off, len, cap), append in place / reallocating, analyze's re-slicing, alloc's and copyPosition's header handling) "
             "is hand-written from tak/alloc.go, tak/game.go, tak/move.go, bitboard/bits.go and tied to the code only by the correspondence. Abstracted: Go's GC and escape analysis "
             "(objects and arrays are never freed or moved in the model), append's growth policy (the model doubles; under separation the capacity of a reallocated array is unobservable, "
